@@ -19,8 +19,8 @@ RULE = ("both pairing-friendly curves: subgroup elements, twist points outside t
         "non-trivial = distinct line with a non-error result")
 
 IDS = {"base": [23, 24]}
-GM = ["mul", "sec", "any", "gen", "dig", "fix"]
-GTE = ["exp", "sec", "dig", "gen", "sim"]
+GM = ["mul", "sec", "any", "gen", "dig", "fix", "mul!", "sec!", "dig!"]
+GTE = ["exp", "sec", "dig", "gen", "sim", "exp!", "sec!", "dig!"]
 
 
 def gen_lines(rng, ex, cid, st, count):
@@ -50,6 +50,10 @@ def gen_lines(rng, ex, cid, st, count):
             out.append("pcv g2 %s" % pg.p2tok(Q))
         elif k < 36:
             a = rng.choice(valid + cyc + rnd + [one, zero, st.gt])
+            if rng.chance(1, 3):
+                # -a for a valid a, and -1: order 2r resp. 2 — inside the cyclotomic subgroup's neighbourhood but not of order r
+                t = rng.choice(valid + [st.gt, one]).split(",")
+                a = ",".join("%x" % ((st.p - int(x, 16)) % st.p) for x in t)
             if rng.chance(1, 8):
                 t = a.split(",")
                 t[rng.below(12)] = "%x" % (rng.bits(256) % st.p)
@@ -58,13 +62,13 @@ def gen_lines(rng, ex, cid, st, count):
         elif k < 52:
             v = rng.choice(GM)
             kk = c03.scalar(rng, st.n)
-            if v == "dig":
+            if v.startswith("dig"):
                 kk = abs(kk) & ((1 << 64) - 1)
             out.append("g1m %s %s %s" % (v, pg.p1tok(rng.choice(pool1 + [None])), hx(kk)))
         elif k < 66:
             v = rng.choice(GM)
             kk = c03.scalar(rng, st.n)
-            if v == "dig":
+            if v.startswith("dig"):
                 kk = abs(kk) & ((1 << 64) - 1)
             out.append("g2m %s %s %s" % (v, pg.p2tok(rng.choice(pool2 + [None])), hx(kk)))
         elif k < 72:
@@ -77,7 +81,9 @@ def gen_lines(rng, ex, cid, st, count):
             v = rng.choice(GTE)
             a = rng.choice(valid + [st.gt, one])
             kk = c03.scalar(rng, st.n)
-            if v == "dig":
+            if rng.chance(1, 3):
+                kk = rng.choice([2, 3, 5, 9, 10, 13, 21, 37, 255, (1 << 63) + 5, (1 << 64) - 1, -5, -9])   # the one-digit shortcut and its NAF shapes
+            if v.startswith("dig"):
                 kk = abs(kk) & ((1 << 64) - 1)
             if v == "sim":
                 out.append("gte sim %s %s %s %s" % (a, hx(kk), rng.choice(valid + [st.gt]), hx(c03.scalar(rng, st.n))))
